@@ -57,6 +57,8 @@ pub fn error_meta(e: &ScriptError) -> Option<&InstructionMetaInfo> {
         | ScriptError::InvalidQuotesLocation(m)
         | ScriptError::EmptyLabel(m)
         | ScriptError::UnknownPreProcessorCommand(m) => Some(m),
+        #[allow(unreachable_patterns)]
+        _ => None,
     }
 }
 
